@@ -11,6 +11,20 @@ COMMON_TB = [
 NOT_CLAIMED_REASON = {}
 
 PROPS = {
+    "C08": {
+        "modules": ["AidlVerif.Props.C08"],
+        "theorems": ["Aidl.Props.C08.container_rule", "Aidl.Props.C08.checkContainers_eq", "Aidl.Props.C08.holds"],
+        "suites": ["containers", "proj"],
+        "keys": {"corr": ["C08"], "spec": ["C08"], "assume": ["C08"], "outcome": True},
+        "trusted_base": COMMON_TB,
+        "assumptions": [
+            "a container diagnostic is recognised by its context message (one of: unsupported array, invalid parameter, invalid element, invalid map key, invalid map value, non-generic list, non-generic map); hypothesis `Fresh` (no diagnostic of another step carries one of them) is decidable and evaluated on every case",
+            "arity of generic lists (arrays/lists 1, maps 2) is guaranteed by the grammar; the model makes a violation an explicit panic outcome",
+        ],
+        "level_text": "Theorems (all trees at any nesting depth, all positions): per container node `check_container` reports exactly one Error per offending element on that element and one Warning per raw List/Map, per the four element tables written from the statement over the 17 categories (`container_rule`, case analysis); `check_containers` applies it to EVERY type node at ANY depth in field, constant, return and argument position (`checkContainers_eq`, through `walkTypes_eq`: the walker is a fold over all nodes); `holds`: in the validated file the container diagnostics are, as a multiset of (severity, range), exactly those.",
+        "level_note": "Trusted: Lean kernel (+ propext, Classical.choice, Quot.sound), the hand-written model of check_container(s)/walk_types tied to the code by the correspondence run, the harness.",
+        "rule": "suite containers: exhaustive container shapes to nesting depth 2 (quick) / 3 with restricted keys (thorough) over the 17 leaf categories, each in field, return, argument and constant position, through real parsing and multi-file resolution; suite proj: random projects. distinct = distinct input digest; non-trivial = at least one array/list/map node",
+    },
     "C09": {
         "modules": ["AidlVerif.Props.C09"],
         "theorems": ["Aidl.Props.C09.step_spec", "Aidl.Props.C09.ids_spec", "Aidl.Props.C09.holds"],
